@@ -135,7 +135,9 @@ func one(r *evid.Run, rg *rand.Rand, idx int, cs int64) {
 	if idx >= 0 && idx < len(noutChoices) {
 		nout = noutChoices[idx]
 	}
-	var outputs []*wire.TxOut
+	// the caller's slice has spare capacity (append-grown slices usually do):
+	// authoring must not write into the caller's backing array
+	outputs := make([]*wire.TxOut, 0, nout+2)
 	var target btcutil.Amount
 	sameKind := outKinds[rg.Intn(len(outKinds))]
 	for i := 0; i < nout; i++ {
@@ -256,6 +258,19 @@ func one(r *evid.Run, rg *rand.Rand, idx int, cs int64) {
 	}
 	atx, err := txauthor.NewUnsignedTransaction(outputs, rate, src, cs2)
 	r.Hit("authoring-calls", 1)
+	if spare := outputs[:nout+1][nout]; spare != nil {
+		r.Violation("c07:callers-output-slice-written", desc+": authoring wrote into the spare capacity of the caller's outputs slice", "author", cs, detail(""))
+		return
+	}
+	if err == nil && rg.Intn(3) == 0 {
+		// author a second transaction for the same outputs slice (fee preview / fee bump)
+		// BEFORE the first one is signed and judged: the first must be unaffected
+		rate2 := btcutil.Amount(rates[rg.Intn(len(rates))])
+		calls2 := calls
+		_, _ = txauthor.NewUnsignedTransaction(outputs, rate2, src, cs2)
+		calls = calls2
+		r.Hit("re-authorings-on-same-outputs", 1)
+	}
 	if calls > 1 {
 		r.Hit("multi-round-selections", 1)
 	}
